@@ -211,3 +211,22 @@ pub fn json_strs(j: &Json, key: &str) -> Result<Vec<String>, String> {
     }
     Ok(out)
 }
+
+/// Is this the error a resource limit raises? Decided loosely on purpose (the word "limit" plus the
+/// resource's name), so that a rewording of the message does not change what the harness does; the
+/// properties say that the operation fails, not with which text.
+pub fn is_limit_msg(m: &str, kind: Option<&str>) -> bool {
+    let l = m.to_ascii_lowercase();
+    if !l.contains("limit") {
+        return false;
+    }
+    match kind {
+        None => true,
+        Some("insn") => l.contains("insn") || l.contains("instruction"),
+        Some(k) => l.contains(k),
+    }
+}
+
+pub fn is_limit_err(r: &Xresult, kind: Option<&str>) -> bool {
+    matches!(r, Err(Xerr::ErrorMsg(m)) if is_limit_msg(m, kind))
+}
